@@ -251,15 +251,18 @@ func vTyLaterCase(spec *common.Spec, which int) vTyCase {
 		return vTyCase{"electra.SingleAttestation", &x, func() common.SSZObj { return &electra.SingleAttestation{} }, electra.SingleAttestationType, true, 8 + 8 + 128 + 96}
 	case 22:
 		var x electra.AttestationBits
+		name := "electra.AttestationBits"
 		switch zzverif.Choose(3) {
 		case 0:
 			x = electra.AttestationBits{0x01}
+			name += " (empty)"
 		case 1:
 			x = electra.AttestationBits{zzverif.NondetU8()&0x1f | 0x20}
+			name += " (5 bits, more than one committee)"
 		default:
 			x = electra.AttestationBits{zzverif.NondetU8(), 0x01} // at the limit: eight bits + delimiter
 		}
-		return vTyCase{"electra.AttestationBits", spec.Wrap(&x), func() common.SSZObj { return spec.Wrap(&electra.AttestationBits{}) }, electra.AttestationBitsType(spec), false, 0}
+		return vTyCase{name, spec.Wrap(&x), func() common.SSZObj { return spec.Wrap(&electra.AttestationBits{}) }, electra.AttestationBitsType(spec), false, 0}
 	case 23:
 		x := electra.CommitteeBits{zzverif.NondetU8() & 0x03}
 		return vTyCase{"electra.CommitteeBits", spec.Wrap(&x), func() common.SSZObj { return spec.Wrap(&electra.CommitteeBits{}) }, electra.CommitteeBitsType(spec), true, 1}
